@@ -250,13 +250,24 @@ pub fn run_check(args: &Args, spec: CheckSpec) -> ! {
             all[*i] = st;
         }
     }
-    // machinery errors are never verdicts
+    // Machinery errors are never verdicts.  A verdict is a violation of this
+    // property that was confirmed by replay; if there is one, it stands (a tree
+    // that breaks the property may well break the harness's expectations
+    // somewhere else too) and the machinery errors are listed next to it.
+    // Without a confirmed violation a machinery error ends the check with exit 2.
     let mach: Vec<String> = all.iter().flat_map(|s| s.machinery_errors.iter().cloned()).collect();
+    let own_confirmed = all.iter().any(|st| st.violations.values().any(|f| f.property == spec.property));
     if !mach.is_empty() {
-        for m in &mach {
-            eprintln!("MACHINERY-ERROR property={} {}", spec.property, m);
+        if own_confirmed {
+            for m in &mach {
+                eprintln!("MACHINERY-NOTE property={} (next to confirmed violations) {}", spec.property, m);
+            }
+        } else {
+            for m in &mach {
+                eprintln!("MACHINERY-ERROR property={} {}", spec.property, m);
+            }
+            std::process::exit(2);
         }
-        std::process::exit(2);
     }
     // violations of this property, by key
     let mut viol: BTreeMap<String, (String, Found)> = BTreeMap::new();
@@ -264,6 +275,10 @@ pub fn run_check(args: &Args, spec: CheckSpec) -> ! {
     for st in &all {
         for f in st.violations.values() {
             if f.property == "MACHINERY" {
+                if own_confirmed {
+                    eprintln!("MACHINERY-NOTE property={} (next to confirmed violations) {} (scenario {}, choices {:?})", spec.property, f.msg, st.name, f.choices);
+                    continue;
+                }
                 eprintln!("MACHINERY-ERROR property={} {} (scenario {}, choices {:?})", spec.property, f.msg, st.name, f.choices);
                 std::process::exit(2);
             }
